@@ -1,18 +1,30 @@
 """C16 — resizing and padding follow the named boundary rule; cropping undoes extension.
 
 Tie to /repo:
-  (T) tools/extract/padslices.py regenerates Gen/PadSlices.lean (the guard table of `_apply_padding` and the per-mode inner/outer
-      slice arithmetic of `_padding_slices_inner/_outer`) from the live source.
-  (C) `odl.util.numerics.resize_array` on real integer-valued arrays (1-3 axes, every pad
-      mode x direction, grow/shrink/same mixes, every admissible offset and the first
-      inadmissible paddings) vs the Lean execution of the model, compared exactly; the Lean
-      reference formulas (`npWrap`, `npReflect`, ...) vs the real `np.pad`; `ResizingOperator`
-      range construction vs the model of `_resize_discr`.
+  (T) tools/extract/padslices.py regenerates Gen/PadSlices.lean from the live source: the guard
+      table, pad lengths and skip condition at the head of the axis loop of `_apply_padding`,
+      and the per-mode slice arithmetic of `_padding_slices_inner/_outer`.  NOT extracted (hand
+      written in Model/Resize.lean, tied by (C) only): the statement sequence of
+      `_apply_padding` after the guards (`=`/`+=`, sums, moments, signs), fill, offset range
+      check and pad_const check of `resize_array`, all of discr_ops.py.
+  (C) `resize_array` on real integer-valued arrays (1-3 axes, every pad mode x direction,
+      grow/shrink/same mixes, every admissible offset, the first inadmissible paddings, offsets
+      out of range; int/float/complex/uint8 dtypes, `out` of another dtype, non-contiguous
+      input/output) vs the Lean execution of the model (`resizeCore` through the driver's
+      tabulating loop, and `resizeND`/`resizeAxes` itself on small cases in both directions),
+      compared exactly (uint8 modulo 256); the Lean reference (`npPad`, `refAxes`) vs the real
+      `np.pad`; `ResizingOperator`: `_resize_discr` (`resizeAxis`), `_offset_from_spaces`
+      (`offsetFromAxes`), adjoint with weightings (`opAdjointW`, `opAdjointND`).
 Oracle (independent of the model, on the real code): `np.pad` with the equivalent mode
-(explicit linear extrapolation for order1) on the cropped input; documented admissibility
-of the padding lengths; full matrices of forward and adjoint are exact transposes;
-crop(extend(x)) == x; operator: unchanged cell sides, grid alignment of the copied block,
-hull containment, weighted adjoint identity, inverse, adjoint.adjoint.
+(explicit linear extrapolation and vanishing second differences for order1) on the cropped
+input; documented admissibility of the padding lengths; offsets out of range refused; input
+unchanged; full matrices of forward and adjoint are exact transposes; crop(extend(x)) == x;
+operator: unchanged cell sides, grid alignment of the copied block, hull containment,
+inconsistent ranges/offsets refused, adjoint identity in the inner products of domain and
+range (default/constant/array weightings, nodes on the boundary, float32/float64/complex),
+value of the adjoint, inverse, adjoint.adjoint, adjoint.inverse.
+The branch histogram in the evidence is the harness's own classification of the cases (mode,
+direction, per-axis class), not a trace of the Lean execution.
 """
 import itertools
 import random
@@ -26,11 +38,12 @@ from vf.core import fs, fl
 RULE = ('resize_array: pad mode x direction x number of axes x per-axis class '
         '(grow with left/right/both padding, shrink with left/right/both cropping, same; '
         'padding at the admissibility limit or not) x dtype class x out-argument class; '
-        'ResizingOperator: construction variant x mode x per-axis class. A case is non-trivial '
+        'ResizingOperator: construction variant x mode x per-axis class x nodes_on_bdry x weighting '
+        'of domain/range x inconsistency kind. A case is non-trivial '
         'when the expected output is not constant; distinct = distinct signatures among '
         'non-trivial cases.')
-TRUSTED = ['translator tools/extract/padslices.py (AST of _padding_slices_inner/_outer -> '
-           'Gen/PadSlices.lean)',
+TRUSTED = ['translator tools/extract/padslices.py (AST of _padding_slices_inner/_outer and of the '
+           'guard block of _apply_padding -> Gen/PadSlices.lean)',
            'NumPy basic slicing / broadcasting assignment, np.sum, np.diff, np.arange (modelled as '
            'exact index maps and sums); np.pad (reference; its index formulas are compared with '
            'the Lean definitions on every run)']
@@ -40,8 +53,14 @@ ASSUMPTIONS = ['floating-point rounding is outside the model; inputs are integer
                'one-axis map along the axes (that the order of the axes is irrelevant is proved). '
                'That NumPy slicing realises the fibre view is checked by the correspondence run '
                'in 1-3 dimensions, not proved',
-               'offsets are naturals in the model; negative offsets are only generated as '
-               'malformed calls (must raise ValueError)']
+               'offsets are naturals in the model; negative offsets are generated as malformed '
+               'calls of resize_array and as inconsistent requests to ResizingOperator (both must '
+               'raise ValueError)',
+               'operator stream: exact comparison needs dyadic weights on the domain side; other '
+               'weights are compared with relative tolerance 1e-9 (1e-4 for float32) and are not '
+               'sent to the model',
+               'DiscretizedSpace.inner is taken from the real code (tensor-space weighting times '
+               'boundary-cell fractions); custom (function) weightings are not generated']
 
 MODES = ['constant', 'symmetric', 'periodic', 'order0', 'order1']
 DIRS = ['forward', 'adjoint']
@@ -158,9 +177,11 @@ def rand_data(rng, shape, dtype):
     size = int(np.prod(shape)) if len(shape) else 1
     vals = [rng.randint(-9, 9) for _ in range(size)]
     a = np.array(vals, dtype='int64').reshape(shape)
-    if dtype == 'complex128':
+    if dtype in ('complex128', 'complex64'):
         im = np.array([rng.randint(-9, 9) for _ in range(size)], dtype='int64').reshape(shape)
-        return a.astype('complex128') + 1j * im
+        return (a.astype('complex128') + 1j * im).astype(dtype)
+    if dtype == 'uint8':
+        return (a % 256).astype('uint8')     # the ring Z/256: results are compared mod 256
     return a.astype(dtype)
 
 
@@ -245,16 +266,23 @@ def case_plan_nd(ctx, count, nmax):
 
 def build_case(rng, mode, d, s_in, s_out, offs, dtype=None, c=None, outkind=None):
     if dtype is None:
-        dtype = rng.choice(['int64', 'int64', 'float64', 'complex128', 'float32', 'int32'])
+        dtype = rng.choice(['int64', 'int64', 'float64', 'complex128', 'float32', 'int32',
+                            'complex64', 'uint8'])
     if c is None:
         c = 0
         if mode == 'constant' and rng.random() < (0.6 if d == 'forward' else 0.15):
-            c = rng.choice([1, -2, 3, 7])
+            c = rng.choice([1, -2, 3, 7]) if dtype != 'uint8' else rng.choice([1, 3, 7])
     if outkind is None:
-        outkind = rng.choice(['none', 'none', 'C', 'F'])
+        outkind = rng.choice(['none', 'none', 'C', 'F', 'strided'])
+    # `out` of another dtype: resize_array casts the input to it (integer values: exact)
+    outdtype = None
+    if outkind != 'none' and rng.random() < 0.3:
+        outdtype = {'int64': 'float64', 'int32': 'complex128', 'float64': 'int64',
+                    'float32': 'float64', 'uint8': 'int64'}.get(dtype)
+    inkind = rng.choice(['C', 'C', 'strided', 'F'])
     return dict(kind='array', mode=mode, dir=d, shape=list(s_in), newshape=list(s_out),
-                off=list(offs), c=c, dtype=dtype, outkind=outkind,
-                data=None, vseed=rng.getrandbits(32))
+                off=list(offs), c=c, dtype=dtype, outkind=outkind, outdtype=outdtype,
+                inkind=inkind, data=None, vseed=rng.getrandbits(32))
 
 
 def case_data(case):
@@ -262,7 +290,16 @@ def case_data(case):
     if case.get('data') is not None:
         flat = [complex(*z) if isinstance(z, (list, tuple)) else z for z in case['data']]
         return np.array(flat).astype(case['dtype']).reshape(case['shape'])
-    return rand_data(r, tuple(case['shape']), case['dtype'])
+    a = rand_data(r, tuple(case['shape']), case['dtype'])
+    kind = case.get('inkind', 'C')
+    if kind == 'F':
+        return np.asfortranarray(a)
+    if kind == 'strided' and a.ndim:
+        big = np.zeros(tuple(2 * s_ for s_ in a.shape), dtype=a.dtype)
+        view = big[tuple(slice(None, None, 2) for _ in a.shape)]
+        view[...] = a
+        return view
+    return a
 
 
 def call_resize(case, arr, direction=None, shape=None, c=None):
@@ -273,7 +310,12 @@ def call_resize(case, arr, direction=None, shape=None, c=None):
               direction=case['dir'] if direction is None else direction)
     out = None
     if case.get('outkind', 'none') != 'none' and shape is None and direction is None:
-        out = np.empty(newshp, dtype=arr.dtype, order=case['outkind'])
+        odt = case.get('outdtype') or arr.dtype
+        if case['outkind'] == 'strided':
+            big = np.empty(tuple(2 * s_ for s_ in newshp), dtype=odt)
+            out = big[tuple(slice(None, None, 2) for _ in newshp)]
+        else:
+            out = np.empty(newshp, dtype=odt, order=case['outkind'])
         out[...] = 77
         kw['out'] = out
     try:
@@ -298,6 +340,17 @@ def oracle_array(case, arr, status, res, deep):
     mode, d = case['mode'], case['dir']
     s_in, s_out, offs = tuple(case['shape']), tuple(case['newshape']), tuple(case['off'])
     c = case['c']
+    u8 = case['dtype'] == 'uint8'
+    if u8:
+        # unsigned arithmetic is the ring Z/256: expectations are computed over the integers
+        # and everything is compared modulo 256
+        arr = arr.astype('int64')
+        if res is not None:
+            res_dtype = res.dtype
+            res = res.astype('int64') % 256
+    want_dtype = np.dtype(case['outdtype']) if (case.get('outdtype') and
+                                                case.get('outkind', 'none') != 'none') \
+        else np.dtype(case['dtype'])
     if d == 'adjoint' and mode == 'constant' and c != 0:
         if status != 'err:padconst-adjoint':
             problems.append('adjoint with pad_const != 0 was not refused: ' + status)
@@ -311,14 +364,27 @@ def oracle_array(case, arr, status, res, deep):
         if status != 'ok':
             problems.append('admissible input refused: ' + status)
             return problems
-        if res.shape != s_out or res.dtype != arr.dtype:
-            problems.append('result shape/dtype {} {}'.format(res.shape, res.dtype))
+        got_dtype = res_dtype if u8 else res.dtype
+        if res.shape != s_out or got_dtype != want_dtype:
+            problems.append('result shape/dtype {} {} (expected {})'.format(
+                res.shape, got_dtype, want_dtype))
             return problems
+        if u8:
+            exp = exp.astype('int64') % 256
         if ilist(res) != ilist(exp):
             bad = [i for i, (p, q) in enumerate(zip(ilist(res), ilist(exp))) if p != q]
             problems.append('forward result differs from np.pad-style expectation at flat '
                             'index {}: got {} expected {}'.format(
                                 bad[0], res.ravel()[bad[0]], exp.ravel()[bad[0]]))
+        if mode == 'order1' and len(s_in) == 1 and s_out[0] > s_in[0] and not u8:
+            # characterisation independent of `lin_extrap_axis`: constant slope across both
+            # boundaries (all second differences vanish there) and the block is the input
+            o, n1 = offs[0], s_in[0]
+            v = [complex(z) for z in np.asarray(res).ravel().tolist()]
+            d2 = [v[i] - 2 * v[i + 1] + v[i + 2] for i in range(len(v) - 2)]
+            if any(d2[i] != 0 for i in range(len(d2)) if i + 2 <= o + 1 or i >= o + n1 - 2):
+                problems.append('order1: the padded part is not the linear continuation of the '
+                                'two outermost samples (non-zero second difference)')
         # overlap copied unchanged
         lhs, rhs = [], []
         for n, m, o in zip(s_in, s_out, offs):
@@ -328,11 +394,13 @@ def oracle_array(case, arr, status, res, deep):
                 lhs.append(slice(None)); rhs.append(slice(o, o + m))
             else:
                 lhs.append(slice(None)); rhs.append(slice(None))
-        if ilist(res[tuple(lhs)]) != ilist(arr[tuple(rhs)]):
+        if ilist(res[tuple(lhs)]) != ilist(arr[tuple(rhs)] % 256 if u8 else arr[tuple(rhs)]):
             problems.append('overlapping block not copied unchanged')
         # crop(extend(x)) == x
         if all(m >= n for n, m in zip(s_in, s_out)):
             st2, back = call_resize(case, res, direction='forward', shape=s_in)
+            if st2 == 'ok' and u8:
+                back, arr = back % 256, arr % 256
             if st2 != 'ok' or ilist(back) != ilist(arr):
                 problems.append('crop(extend(x)) != x ({})'.format(st2))
         return problems
@@ -361,8 +429,9 @@ def oracle_array(case, arr, status, res, deep):
             return problems
         lhs = np.sum(fx.astype(object) * arr.astype(object)) if fx.size else 0
         rhs = np.sum(x.astype(object) * res.astype(object)) if x.size else 0
-        if complex(lhs) != complex(rhs):
-            problems.append('<R x, y> = {} but <x, R^T y> = {}'.format(lhs, rhs))
+        if (u8 and (int(lhs) - int(rhs)) % 256 != 0) or (not u8 and complex(lhs) != complex(rhs)):
+            problems.append('<R x, y> = {} but <x, R^T y> = {}{}'.format(
+                lhs, rhs, ' (mod 256)' if u8 else ''))
             return problems
     if deep or n_small * n_large <= 64:
         # full matrices
@@ -389,6 +458,8 @@ def oracle_array(case, arr, status, res, deep):
                                 '(row {}, col {}): {} vs {}'.format(i, j, ma[i, j], mf.T[i, j]))
             # and the result is that matrix applied to the input
             want = ma.astype(object).dot(arr.ravel().astype(object)) if arr.size else None
+            if want is not None and u8:
+                want = [int(v) % 256 for v in want]
             if want is not None and [complex(v) for v in want] != \
                     [complex(v) for v in res.ravel().tolist()]:
                 problems.append('adjoint result is not linear in the input')
@@ -421,6 +492,9 @@ def compare_model(ctx, case, desc, status, res, answers):
     re = core.pfl(answers[0][5:])
     im = core.pfl(answers[1][5:]) if len(answers) > 1 else [Fraction(0)] * len(re)
     got = ilist(res)
+    if case['dtype'] == 'uint8':
+        re = [Fraction(int(v) % 256) for v in re]
+        got = ilist(np.asarray(res).astype('int64') % 256)
     if got != list(zip(re, im)):
         ctx.disagree(desc, [str(v) for v in res.ravel().tolist()][:40],
                      answers[0][:200] + (' | ' + answers[1][:200] if len(answers) > 1 else ''))
@@ -437,9 +511,11 @@ def key_of(case):
     cls = [axis_class(case['mode'], n, m, o) if case['dir'] == 'forward' else
            axis_class(case['mode'], m, n, o)
            for n, m, o in zip(case['shape'], case['newshape'], case['off'])]
-    return 'resize_array mode={} dir={} ndim={} axes={} dtype={} out={} c={}'.format(
+    return 'resize_array mode={} dir={} ndim={} axes={} dtype={} in={} out={}{} c={}'.format(
         case['mode'], case['dir'], len(case['shape']), '/'.join(cls), case['dtype'],
-        case['outkind'], 'nonzero' if case['c'] else '0')
+        case.get('inkind', 'C'), case['outkind'],
+        ':' + case['outdtype'] if case.get('outdtype') and case['outkind'] != 'none' else '',
+        'nonzero' if case['c'] else '0')
 
 
 def array_stream(ctx, deep=False, model=True):
@@ -479,23 +555,37 @@ def array_stream(ctx, deep=False, model=True):
                 (status if res is None else 'returned {}'.format(res.ravel().tolist()[:8]))]
         else:
             problems = oracle_array(case, arr, status, res, deep or not quick)
+        foreign = status.startswith('err:') and status.count(':') == 1 and \
+            status[4:5].isupper()          # an exception class the model does not know
         if problems:
-            ctx.violation(key_of(case) + ('' if valid_offsets(case) else ' offset-out-of-range'),
+            ctx.violation(key_of(case) + ('' if valid_offsets(case) else ' offset-out-of-range')
+                          + (' raises=' + status[4:] if foreign else ''),
                           '; '.join(problems)[:600], desc)
         nontrivial = status == 'ok' and res.size > 1 and len(set(ilist(res))) > 1
         cls = tuple((axis_class(mode, n, m, o) if d == 'forward' else axis_class(mode, m, n, o))
                     if n == m or o + min(n, m) <= max(n, m) else 'offset-out-of-range'
                     for n, m, o in zip(s_in, s_out, offs))
-        sig = ('array', mode, d, len(s_in), cls, case['dtype'] in ('complex128',),
-               case['outkind'] != 'none')
+        sig = ('array', mode, d, len(s_in), cls, case['dtype'] in ('complex128', 'complex64'),
+               case['dtype'] == 'uint8', case['outkind'] != 'none', bool(case.get('outdtype')),
+               case.get('inkind', 'C') == 'strided' or case['outkind'] == 'strided')
         ctx.case(sig if nontrivial else None,
                  sample={'case': desc, 'impl': status if res is None else
                          [str(v) for v in res.ravel().tolist()][:12]}
                  if len(s_in) <= 2 and nontrivial and rng.random() < 0.02 else None)
         for cl in cls:
             ctx.hit('{}/{}/{}'.format(mode, d, cl.rstrip('!').rstrip('LR') or cl))
+        ctx.hit('array/dtype=' + case['dtype'])
+        if case.get('outdtype') and case['outkind'] != 'none':
+            ctx.hit('array/out-of-other-dtype')
+        if case.get('inkind') == 'strided' or case['outkind'] == 'strided':
+            ctx.hit('array/non-contiguous')
         if status != 'ok':
             ctx.err(status if status.count(':') == 1 else 'err:other')
+        if foreign and case['dtype'] == 'uint8' and mode == 'order1' and d == 'adjoint':
+            # known finding C16-F8 (reported through the oracle where the input is admissible):
+            # the casting error pre-empts the model's answer, nothing to compare
+            ctx.err('uint8-order1-adjoint:UFuncTypeError')
+            continue
         if model:
             ls = model_lines(case, arr)
             groups = [ls]
@@ -504,9 +594,15 @@ def array_stream(ctx, deep=False, model=True):
                 # first), and for small cases the model's own `resizeND` without tabulation
                 groups.append([l + ' order=rev' for l in ls])
                 ctx.hit('nd/reversed-axis-order')
-                if int(np.prod(s_in)) * int(np.prod(s_out)) <= 400 and d == 'forward':
+                if int(np.prod(s_in)) * int(np.prod(s_out)) <= (400 if d == 'forward' else 150):
+                    # the model's own `resizeND` (= `resizeAxes`, the function of the n-d
+                    # theorems), without the driver's tabulation
                     groups.append([l.replace('resize ', 'resize-direct ', 1) for l in ls])
-                    ctx.hit('nd/resizeND-direct')
+                    ctx.hit('nd/resizeND-direct/' + d)
+                if d == 'forward' and valid_offsets(case):
+                    # the n-d reference `refAxes` of C16.forward_nd_eq_reference
+                    groups.append([l.replace('resize ', 'refnd ', 1) for l in ls])
+                    ctx.hit('nd/refAxes')
             for g in groups:
                 batch.append((case, desc, status, res, len(g)))
                 lines.extend(g)
@@ -581,6 +677,15 @@ def malformed_stream(ctx):
         ('adjoint with pad_const', lambda: resize_array(x, (3, 3), pad_const=1,
                                                         direction='adjoint'), (ValueError,)),
     ]
+    ctx.case(None)
+    try:
+        z = resize_array(np.array(5.0), ())
+        if z.shape != () or float(z) != 5.0:
+            ctx.violation('resize_array 0-d array', 'returned {!r}'.format(z),
+                          {'kind': 'malformed', 'name': '0-d'})
+    except Exception as e:  # noqa
+        ctx.violation('resize_array 0-d array', 'raised {}'.format(type(e).__name__),
+                      {'kind': 'malformed', 'name': '0-d'})
     for name, f, excs in bad:
         ctx.case(None)
         try:
@@ -1048,6 +1153,9 @@ def run(ctx):
     # coverage of the model's branches by this run (a silent loss of coverage must be visible)
     expected = ['{}/{}/{}'.format(m, d, c) for m in MODES for d in DIRS
                 for c in ('grow', 'shrink', 'same')]
+    expected += ['nd/refAxes', 'nd/resizeND-direct/forward', 'nd/resizeND-direct/adjoint',
+                 'array/dtype=uint8', 'array/dtype=complex64', 'array/out-of-other-dtype',
+                 'array/non-contiguous']
     expected += ['reference/' + m for m in MODES] + ['discr-model', 'opadj-model', 'opadjnd-model', 'offsp-model',
                  'operator/one-cell-axis', 'operator/ndim=3']
     expected += ['operator/inconsistent/' + k for ks in BAD_KINDS.values() for k in ks]
